@@ -80,6 +80,9 @@ PROPS = {
     "C18": dict(level="exploration", parts=[dict(engine="e3", quick=1200, thorough=30000)],
                 text="2-4 threads enter generated fixpoint / fallback cycles (nested, conditional) at different members under seeded schedules; every value = least fixpoint / SCC fallback reference, all threads terminate.",
                 note="Fallback programs are explored within one revision only (recorded C13 finding needs a later revision)."),
+    "C19": dict(level="exploration", parts=[dict(engine="e3", quick=1200, thorough=30000)],
+                text="Trace validation: every E3 run (reader, cross-thread cycle, writer-cancellation, token-cancellation and panic-with-waiters scenarios) records the operations of the dependency graph and of claim release through a feature-gated hook; an independent executable model of the protocol replays the trace: every wait is woken exactly once and resumes with that result, no wake-up reaches a non-waiting thread, the thread wait-for graph (with edges re-pointed by lock transfers) stays acyclic after every insertion, each wake-up result is justified by the release (or ownership hand-over) that caused it, nothing is left waiting at quiescence.",
+                note="The exhaustive model check named in the property's quantifier is outside this technique family and is not claimed; the claim is trace validation over all explored schedules."),
     "C20": dict(level="exploration", parts=[dict(engine="e3", quick=1200, thorough=30000)],
                 text="Reader threads run generated programs (acyclic and fixpoint) while the main thread performs one write (input write, synthetic write, set_lru_capacity, trigger_lru_eviction, trigger_cancellation) at a scheduler-chosen moment; readers drop their clone when done or cancelled: the writer must terminate, every reader value = reference of the pre-write revision, every reader panic is a Cancelled (PendingWrite, or PropagatedPanic for readers waiting on a cancelled reader), after the write everything = reference of the new inputs.",
                 note="Which cancellation payload a waiting reader sees is not constrained by the property; only value freshness and writer progress are checked."),
